@@ -306,3 +306,9 @@ def run(facts, rep, tier):
              "helper - a rule or table in an expanded note must neither vanish nor make the export loop.")
     from . import c20 as _c20
     _c20.rule_r2(facts, rep, "C17-R10")
+    rep.rule("C17-R11", "The squashed text is written back as it is: Graph::build_key_from_iter records no title for the key it builds (no fn reachable from it writes the title cache), so links "
+             "back to the squashed note - kept references and inline links in expanded paragraphs - keep their text.")
+    from . import forwards
+    forwards.rule_scratch_graph_has_no_titles(facts, rep, "C17-R11")
+    rep.rule("C17-R12", "= C09-R10: squash is asked of the library graph itself (the server's ActionContext::squash is a plain forward).")
+    forwards.rule_context_forwards(facts, rep, "C17-R12")
